@@ -31,7 +31,9 @@ def _script_for(k, ops, two_threads):
         elif op == "flush":
             L.append(f"T {t} flushbt {lg}")
         elif op == "stmt":
-            L.append(f"T {t} log {lg} lvl={arg[0]} id={sid} pad=2 kind=macro")
+            # statically or dynamically levelled: the flush decision must use the level the statement was given
+            kind = "dynmacro" if (k + j) % 3 == 0 else "macro"
+            L.append(f"T {t} log {lg} lvl={arg[0]} id={sid} pad=2 kind={kind}")
         L.append("B drain")
     L.append("mark done")
     for g in gs:
